@@ -59,3 +59,17 @@ func (x *Ctx) internalByte(s []byte, c int64) {
 	}
 	x.rawPair(fmt.Sprintf("i.indexByte\t%s\t%d", hexOrDash(s), c), pairStr(i1, z1), pairStr(i2, z2))
 }
+
+// internalIndex: the unexported search strategies on (s, sub); sub needs at least two code points
+func (x *Ctx) internalIndex(s, sub []byte) {
+	if len(segsOf(sub)) < 2 {
+		return
+	}
+	x.rawPair(fmt.Sprintf("i.rabinKarp\t%s\t%s", hexOrDash(s), hexOrDash(sub)),
+		itoa(strcase.VerifIndexRabinKarpUnicode(string(s), string(sub))), itoa(bytcase.VerifIndexRabinKarpUnicode(s, sub)))
+	// bruteForceIndexUnicode indexes s while i < t <= len(s): callers never pass an empty haystack
+	if len(s) > 0 {
+		x.rawPair(fmt.Sprintf("i.bruteForce\t%s\t%s", hexOrDash(s), hexOrDash(sub)),
+			itoa(strcase.VerifBruteForceIndexUnicode(string(s), string(sub))), itoa(bytcase.VerifBruteForceIndexUnicode(s, sub)))
+	}
+}
